@@ -419,20 +419,43 @@ def _entry_value(entry: ast.AST, field: str):
     return None
 
 
+def _items_iteration(it: ast.AST):
+    """The dictionary expression whose (key, value) pairs the loop runs over: `d.items()`, `(d or {}).items()`,
+    `d.items() if <cond> else ()` / `() if <cond> else d.items()` (empty alternative), `list(d.items())`; None otherwise."""
+    def empty(e):
+        return (isinstance(e, (ast.Tuple, ast.List, ast.Dict)) and not (e.elts if not isinstance(e, ast.Dict) else e.keys)) \
+            or (isinstance(e, ast.Call) and _items_iteration(e) is not None and isinstance(e.func.value, ast.Dict) and not e.func.value.keys)
+    if isinstance(it, ast.Call) and isinstance(it.func, ast.Attribute) and it.func.attr == "items" and not it.args and not it.keywords:
+        return it.func.value
+    if isinstance(it, ast.Call) and isinstance(it.func, ast.Name) and it.func.id in ("list", "tuple", "iter") and len(it.args) == 1 \
+            and not it.keywords:
+        return _items_iteration(it.args[0])
+    if isinstance(it, ast.IfExp):
+        for x, y in ((it.body, it.orelse), (it.orelse, it.body)):
+            if _items_iteration(x) is not None and empty(y):
+                return _items_iteration(x)
+    return None
+
+
 def r3_time_grid(ctx, rid):
     g = ctx.repo.get_func(REL, "create_input_node")
     ctx.require(len(g.params) >= 4, f"{rid}: create_input_node signature changed: {g.params}")
     p_var, p_inp, p_cont, p_T = g.params[:4]
+    # the function distinguishes the two cases by testing its flag parameter - once, or several times when the parts that differ
+    # are set up in separate if-statements; `adaptive` / `fixed` collect the statements executed only for flag true / false
     tops = [st for st in g.node.body if isinstance(st, ast.If) and isinstance(st.test, (ast.Name, ast.UnaryOp))
             and p_cont in {n.id for n in ast.walk(st.test) if isinstance(n, ast.Name)}]
-    ctx.require(len(tops) == 1, f"{rid}: create_input_node no longer branches once on `{p_cont}` (unrecognised form)")
-    top = tops[0]
-    if isinstance(top.test, ast.Name):
-        adaptive, fixed = top.body, top.orelse
-    elif isinstance(top.test.op, ast.Not) and isinstance(top.test.operand, ast.Name):
-        adaptive, fixed = top.orelse, top.body
-    else:
-        raise AnalysisError(f"{rid}: unrecognised branch test `{norm(top)}`")
+    ctx.require(tops, f"{rid}: create_input_node no longer branches on `{p_cont}` (unrecognised form)")
+    adaptive, fixed = [], []
+    for top in tops:
+        if not all(_unmodified_param(ctx, g, n, p_cont) for n in ast.walk(top.test) if isinstance(n, ast.Name)):
+            raise AnalysisError(f"{rid}: `{p_cont}` is re-bound before `{norm(top)}` (unrecognised form)")
+        if isinstance(top.test, ast.Name):
+            adaptive, fixed = adaptive + top.body, fixed + top.orelse
+        elif isinstance(top.test.op, ast.Not) and isinstance(top.test.operand, ast.Name):
+            adaptive, fixed = adaptive + top.orelse, fixed + top.body
+        else:
+            raise AnalysisError(f"{rid}: unrecognised branch test `{norm(top)}`")
     ctx.require(adaptive and fixed, f"{rid}: create_input_node lost one of its two branches")
 
     def in_block(block, n):
@@ -471,9 +494,51 @@ def r3_time_grid(ctx, rid):
     grid_name = lin_st.targets[0].id
 
     # ---- equations and variable tables per branch
-    def var_tables(block):
-        return [st for st in walk_shallow(g.node) if isinstance(st, ast.Assign) and isinstance(st.value, ast.Dict) and in_block(block, st)
-                and any(_entry_value(v, "vtype") is not None for v in st.value.values)]
+    def entry_field(entry, field):
+        """Field of a variable specification that is a dict literal, in place or bound once to a local."""
+        if isinstance(entry, ast.Name):
+            entry = resolve_local(ctx, g, entry)
+        return _entry_value(entry, field)
+
+    def is_table(st):
+        return isinstance(st, ast.Assign) and isinstance(st.value, ast.Dict) and len(st.targets) == 1 and isinstance(st.targets[0], ast.Name) \
+            and any(_entry_value(v, "vtype") is not None for v in st.value.values)
+
+    def conditional(n):
+        return in_block(adaptive, n) or in_block(fixed, n)
+
+    def table_of(block, bname):
+        """[(key, specification)] of the variable table the operator gets in this case: the dict literal written in the branch, or
+        one shared literal plus the entries stored into it (`table[k] = spec`, `table.update({...})`) unconditionally or in the branch."""
+        all_tabs = [st for st in walk_shallow(g.node) if is_table(st)]
+        cands = [st for st in all_tabs if in_block(block, st)] or [st for st in all_tabs if not conditional(st)]
+        ctx.require(len(cands) == 1, f"{rid}: expected one variable table for the {bname} case, found {len(cands)}")
+        tst = cands[0]
+        ctx.require(all(k is not None for k in tst.value.keys), f"{rid}: `{norm(tst)}` uses ** unpacking (unrecognised form)")
+        pairs = list(zip(tst.value.keys, tst.value.values))
+        name = tst.targets[0].id
+        for n in ordered(walk_shallow(g.node)):
+            if not (isinstance(n, ast.Name) and n.id == name and isinstance(n.ctx, ast.Load) and comp_generator_of(n) is None
+                    and any(d is tst for d in ctx.rd(g).defs_reaching(n))):
+                continue
+            par, st = parent(n), stmt_of(ctx.cfg(g), n)
+            mine = in_block(block, st) or not conditional(st)
+            if isinstance(par, ast.Subscript) and par.value is n and isinstance(par.ctx, ast.Store) and isinstance(st, ast.Assign) \
+                    and len(st.targets) == 1 and st.targets[0] is par:
+                if mine:
+                    pairs.append((par.slice, st.value))
+            elif isinstance(par, ast.Attribute) and par.value is n and isinstance(parent(par), ast.Call) and parent(par).func is par \
+                    and par.attr in ("update", "pop", "setdefault", "clear", "popitem", "__setitem__", "__delitem__"):
+                call = parent(par)
+                if par.attr == "update" and len(call.args) == 1 and not call.keywords and isinstance(call.args[0], ast.Dict) \
+                        and all(k is not None for k in call.args[0].keys):
+                    if mine:
+                        pairs += list(zip(call.args[0].keys, call.args[0].values))
+                else:
+                    raise AnalysisError(f"{rid}: the variable table is modified by `{norm(call)}` (unrecognised form)")
+            elif isinstance(par, ast.Subscript) and isinstance(par.ctx, (ast.Store, ast.Del)):
+                raise AnalysisError(f"{rid}: the variable table is modified by `{norm(st)}` (unrecognised form)")
+        return pairs
 
     def equations(block):
         out = []
@@ -484,8 +549,8 @@ def r3_time_grid(ctx, rid):
                     out.append((st, js))
         return out
 
-    def table_lookup(table: ast.Dict, pred):
-        for k, v in _dict_entries(table):
+    def table_lookup(table, pred):
+        for k, v in table:
             if k is not None and pred(k):
                 return v
         return None
@@ -506,14 +571,12 @@ def r3_time_grid(ctx, rid):
     def check_array_binding(table, eq_js, arg_text):
         """The variable named by the equation's array argument is declared with the unmodified array parameter as its value."""
         ent = table_lookup(table, lambda k: key_text(k, eq_js) == arg_text)
-        val = _entry_value(ent, "value") if ent is not None else None
+        val = entry_field(ent, "value") if ent is not None else None
         return val is not None and _unmodified_param(ctx, g, val, p_inp)
 
     lhs_names = set()
     for block, bname in ((adaptive, "adaptive"), (fixed, "fixed-step")):
-        tabs = var_tables(block)
-        ctx.require(len(tabs) == 1, f"{rid}: expected one variable table in the {bname} branch, found {len(tabs)}")
-        table = tabs[0].value
+        table = table_of(block, bname)
         eqs = equations(block)
         ctx.require(eqs, f"{rid}: no equation list found in the {bname} branch")
         for st, js in eqs:
@@ -527,7 +590,7 @@ def r3_time_grid(ctx, rid):
             lhs_r = resolve_local(ctx, g, lhs_hole)
             lhs_names.add(ast.dump(lhs_r))
             out_ent = table_lookup(table, lambda k: not isinstance(k, (ast.Constant, ast.JoinedStr)) and same_value(ctx, g, resolve_local(ctx, g, k), lhs_r))
-            lhs_ok = out_ent is not None and isinstance(_entry_value(out_ent, "vtype"), ast.Constant) and _entry_value(out_ent, "vtype").value == "output"
+            lhs_ok = out_ent is not None and isinstance(entry_field(out_ent, "vtype"), ast.Constant) and entry_field(out_ent, "vtype").value == "output"
             arr_pos = 2 if bname == "adaptive" else 0
             arr_ok = len(args) > arr_pos and check_array_binding(table, js, args[arr_pos])
             facts = {"equation": tpl, "lhs_is_output_variable": lhs_ok, "array_bound_to_parameter": arr_ok}
@@ -538,15 +601,21 @@ def r3_time_grid(ctx, rid):
                                               f"fractional times would not be interpolated linearly", facts, label=label)
                     continue
                 grid_ent = table_lookup(table, lambda k: len(args) == 3 and key_text(k, js) == args[1])
-                gval = _entry_value(grid_ent, "value") if grid_ent is not None else None
+                gval = entry_field(grid_ent, "value") if grid_ent is not None else None
                 grid_ok = isinstance(gval, ast.Name) and gval.id == grid_name and \
                     [d for d in ctx.rd(g).defs_reaching(gval)] == [lin_st]
                 form_ok = len(args) == 3 and args[0] == "t"
                 # interp_rows exactly on the 2-D branch
-                nd = [a_ for a_ in ancestors(st) if isinstance(a_, ast.If) and contains(top, a_) and a_ is not top]
+                nd = [a_ for a_ in ancestors(st) if isinstance(a_, ast.If) and not any(a_ is t_ for t_ in tops)]
                 two_d = None
                 for a_ in nd:
-                    multi = _ndim_test(a_.test, p_inp)
+                    test_ = a_.test
+                    if isinstance(test_, ast.Name):          # the dimension test may be held in a flag that is computed once
+                        dfs = ctx.rd(g).defs_reaching(test_)
+                        tv_ = assigned_value(dfs[0], test_.id) if len(dfs) == 1 and not isinstance(dfs[0], ast.arguments) else None
+                        if tv_ is not None and alias_is_stable(ctx, g, dfs[0], test_, tv_):
+                            test_ = tv_
+                    multi = _ndim_test(test_, p_inp)
                     if multi is not None:
                         two_d = multi == any(contains(x, st) for x in a_.body)
                 if two_d is None:
@@ -740,8 +809,17 @@ def r3_time_grid(ctx, rid):
         # target / array from one items() pair
         tb = binding_loop(ctx, host, b[fp[1]]) if isinstance(b[fp[1]], ast.Name) else None
         ib = binding_loop(ctx, host, b[f_inp]) if isinstance(b[f_inp], ast.Name) else None
-        pair = tb is not None and ib is not None and tb[2] is ib[2] and isinstance(tb[1], ast.Call) and call_name(tb[1]) == "items" \
-            and position_in_target(tb[0], b[fp[1]].id) == 0 and position_in_target(ib[0], b[f_inp].id) == 1
+        if tb is None or ib is None:
+            raise AnalysisError(f"{rid}: target `{norm(b[fp[1]])}` / array `{norm(b[f_inp])}` of `{norm(call)}` are not bound by a loop "
+                                f"(unrecognised form)")
+        if tb[2] is ib[2]:
+            kind = _items_iteration(tb[1])
+            if kind is None:
+                raise AnalysisError(f"{rid}: `{norm(call)}` sits in a loop over `{norm(tb[1])}`, not over the items of the input "
+                                    f"dictionary (unrecognised form)")
+            pair = position_in_target(tb[0], b[fp[1]].id) == 0 and position_in_target(ib[0], b[f_inp].id) == 1
+        else:
+            pair = False
         record(host, "caller: path/array pairing", call, pair, "target path and array come from the same inputs.items() pair",
                "the target path and the array handed to _add_input are not key and value of one inputs.items() pair: "
                "an array would drive another variable than the one it was given for")
@@ -1152,6 +1230,30 @@ def _rows_iteration(fn: ast.FunctionDef):
                         "(unrecognised form)")
 
 
+def _imported_def_string(ctx, module, d):
+    """(text, statement, kind) like Registry.def_source for a helper definition string that the registry module imports
+    (`from <other module> import <name>`), following the import chain to the assignment of the string constant."""
+    if not isinstance(d, ast.Name):
+        return None
+    m, name = module, d.id
+    for _ in range(5):
+        sts = m.assigns.get(name)
+        if sts and isinstance(sts[-1], ast.Assign) and isinstance(sts[-1].value, ast.Constant) and isinstance(sts[-1].value.value, str):
+            text = sts[-1].value.value
+            try:
+                ast.parse(text)
+                return text, sts[-1], "pydef"
+            except SyntaxError:
+                return text, sts[-1], "foreign"
+        imp = m.imports.get(name)
+        if imp is None or imp[1] in (None, "*"):
+            return None
+        m, name = ctx.repo.modules.get(imp[0]), imp[1]
+        if m is None:
+            return None
+    return None
+
+
 def r6_interp_rows(ctx, rid):
     n = 0
     for be in ("base", "torch", "jax"):
@@ -1162,12 +1264,16 @@ def r6_interp_rows(ctx, rid):
             continue
         items = []
         src = reg.def_source("interp_rows")
+        if src is None:
+            # the definition string may be shared: imported from the module that defines it
+            src = _imported_def_string(ctx, reg.module, reg.entries["interp_rows"].get("def"))
         if src is not None and src[2] == "pydef":
             items.append((H.parse_pydef(src[0]), src[1], "def string"))
         fnode = reg.entries["interp_rows"].get("func")
-        if isinstance(fnode, ast.Name) and fnode.id in reg.module.functions:
-            tw = reg.module.functions[fnode.id]
-            items.append((tw.node, tw.node, f"numpy twin {fnode.id}"))
+        if isinstance(fnode, ast.Name):
+            tw = reg.module.functions.get(fnode.id) or ctx.repo.resolve_name(reg.module, fnode.id)
+            if tw is not None and isinstance(getattr(tw, "node", None), ast.FunctionDef):
+                items.append((tw.node, tw.node, f"numpy twin {fnode.id}"))
         for fn, st, what in items:
             n += 1
             try:
